@@ -9,27 +9,31 @@ Definition b (n : N) : byte := n2b n.
 (* the pinned tree: zero-filled short reads, non-canonical big integers, nil-map panic *)
 Lemma pinned_witnesses :
   decode_res pinned TU32 [b 1; b 2] = Ok (VN 513, []) /\
-  decode_res pinned TBytes [b 8; b 65] = Ok (VBytes [b 65; b 0], []) /\
   decode_res pinned TBig [b 1; b 0] = Ok (VN 0, []) /\
   decode_res pinned (TMap TU8 TU8) [b 4; b 1; b 2] = Panic.
 Proof. vm_compute. repeat split; reflexivity. Qed.
 
-(* the pinned decodeBytes allocates the declared length: 5 input bytes, 2^32-1 bytes requested *)
-Lemma pinned_alloc_witness :
-  4294967295 <= decode_cost pinned TBytes [b 3; b 255; b 255; b 255; b 255; b 65].
-Proof. vm_compute. discriminate. Qed.
-
 Lemma current_witnesses :
   decode_res current TU32 [b 1; b 2] = Err 1%nat /\
-  decode_res current TBytes [b 8; b 65] = Err 1%nat /\
   decode_res current TBig [b 1; b 0] = Err 1%nat /\
-  decode_res current (TMap TU8 TU8) [b 4; b 1; b 2] = Ok (VMap (KCons (VN 1) (VN 2) KNil), []) /\
-  decode_cost current TBytes [b 3; b 255; b 255; b 255; b 255; b 65] <= 5000.
-Proof. vm_compute. repeat split; try reflexivity. discriminate. Qed.
+  decode_res current (TMap TU8 TU8) [b 4; b 1; b 2] = Ok (VMap (KCons (VN 1) (VN 2) KNil), []).
+Proof. vm_compute. repeat split; reflexivity. Qed.
+
+(* finding bytes-overrun on the current tree: a byte string is decoded from a truncated body
+   (the missing byte is zero), and 5 input bytes make decodeBytes request 65536 bytes *)
+Lemma bytes_overrun_witness :
+  decode_res current TBytes [b 8; b 65] = Ok (VBytes [b 65; b 0], []) /\
+  spec_encode TBytes (VBytes [b 65; b 0]) <> [b 8; b 65] /\
+  bytes_overrun TBytes [b 8; b 65] = true /\
+  65536 <= decode_cost current TBytes [b 2; b 0; b 4; b 0; b 65] /\
+  decode_res ideal TBytes [b 8; b 65] = Err 1%nat /\
+  decode_cost ideal TBytes [b 2; b 0; b 4; b 0; b 65] <= 5000.
+Proof. vm_compute. repeat split; try reflexivity; discriminate. Qed.
 
 (* finding map-noncanonical on the current tree: a repeated key is accepted *)
 Lemma map_dup_witness :
   decode_res current (TMap TU8 TU8) [b 8; b 1; b 1; b 1; b 2] = Ok (VMap (KCons (VN 1) (VN 2) KNil), []) /\
   spec_encode (TMap TU8 TU8) (VMap (KCons (VN 1) (VN 2) KNil)) = [b 4; b 1; b 2] /\
-  map_noncanonical (TMap TU8 TU8) [b 8; b 1; b 1; b 1; b 2] = true.
+  map_noncanonical (TMap TU8 TU8) [b 8; b 1; b 1; b 1; b 2] = true /\
+  decode_res ideal (TMap TU8 TU8) [b 8; b 1; b 1; b 1; b 2] = Err 1%nat.
 Proof. vm_compute. repeat split; reflexivity. Qed.
